@@ -300,9 +300,8 @@ func genC11Layouts(r *Rand) *RunSpec {
 		lay("l2", "l3", "<b>l2</b>")
 		lay("l3", "l1", "<b>l3</b>")
 		mustErr = true
-	case 3: // missing target
+	case 3: // missing target: the call must return; whether a missing layout is an error is not C11's business
 		lay("l0", "nowhere", "<b>l0</b>")
-		mustErr = true
 	case 4: // long chain, below and beyond the limit
 		n := Pick(r, []int{5, 50, 98, 99, 100, 101, 130})
 		for i := 0; i < n; i++ {
